@@ -84,6 +84,21 @@ Definition query_removed (names : list string) (q q' : string) : bool :=
                                 (if mem_str k names then [] else values_get k m))
             (map fst m ++ map fst m' ++ names)%list.
 
+(** ... and the strict reading of "changed only by the removed query parameters":
+    the settings that name a parameter to remove are gone, every other setting is
+    there byte for byte, in the original order *)
+Definition setting_named (names : list string) (s : string) : bool :=
+  match query_unescape (fst (cut_on "=" s)) with
+  | Some n => mem_str n names
+  | None => false
+  end.
+
+Definition kept_settings (names : list string) (q : string) : string :=
+  join_with "&" (filter (fun s => negb (setting_named names s)) (split_on "&" q)).
+
+Definition query_clause (names : list string) (q q' : string) : bool :=
+  String.eqb q' (if is_nil names || is_empty q then q else kept_settings names q).
+
 (** * headers, name by name *)
 
 (** the value the pipeline produced for the canonical name [k]: its first
@@ -99,25 +114,32 @@ Fixpoint pipeline_value (hs : list (string * string)) (k : string) : option stri
 Definition pipeline_values (all : bool) (hs : list (string * string)) (k : string) : list string :=
   if all then line_values k hs else match pipeline_value hs k with Some v => [v] | None => [] end.
 
-Definition forwarding_active (hin : header) : bool :=
-  negb (is_empty (h_get "X-Forwarded-For" hin)) || negb (is_empty (h_get "X-Forwarded-Proto" hin)) ||
+(** the forwarding information a (trusted) peer sent under [k]: all field lines
+    as one list ([all_lines] = false: the first line only, the behaviour C15-F7) *)
+Definition chain (all_lines : bool) (k : string) (hin : header) : string :=
+  if all_lines then h_joined k hin else h_get k hin.
+
+Definition forwarding_active (all_lines : bool) (hin : header) : bool :=
+  negb (is_empty (chain all_lines "X-Forwarded-For" hin)) || negb (is_empty (h_get "X-Forwarded-Proto" hin)) ||
   negb (is_empty (h_get "X-Forwarded-Host" hin)).
 
 Definition append_peer (old peer : string) : string :=
   if is_empty old then peer else old ++ ", " ++ peer.
 
-(** what the forwarding header [k] must carry, if this request's forwarding
-    information travels in [k]: the received value extended by the peer *)
-Definition forwarding_value (q : request) (k : string) : option string :=
+Definition conn_proto (q : request) : string := if q_tls q then "https" else "http".
+
+(** what this implementation writes into the forwarding header [k], if this
+    request's forwarding information travels in [k] *)
+Definition forwarding_value (all_lines : bool) (q : request) (k : string) : option string :=
   let hin := in_headers q in
-  if forwarding_active hin then
-    if String.eqb k "X-Forwarded-For" then Some (append_peer (h_get k hin) (q_peer q))
-    else if String.eqb k "X-Forwarded-Proto" then Some (if is_empty (h_get k hin) then "http" else h_get k hin)
+  if forwarding_active all_lines hin then
+    if String.eqb k "X-Forwarded-For" then Some (append_peer (chain all_lines k hin) (q_peer q))
+    else if String.eqb k "X-Forwarded-Proto" then Some (if is_empty (h_get k hin) then conn_proto q else h_get k hin)
     else if String.eqb k "X-Forwarded-Host" then Some (if is_empty (h_get k hin) then q_host q else h_get k hin)
     else None
   else
     if String.eqb k "Forwarded"
-    then Some (append_peer (h_get k hin) ("for=" ++ q_peer q ++ ";host=" ++ q_host q ++ ";proto=http"))
+    then Some (append_peer (chain all_lines k hin) ("for=" ++ q_peer q ++ ";host=" ++ q_host q ++ ";proto=" ++ conn_proto q))
     else None.
 
 Definition is_forwarding_name (k : string) : bool :=
@@ -142,18 +164,19 @@ Fixpoint join_cookies (base : string) (cs : list (string * string)) : string :=
 Definition passed_on (hin : header) (k : string) : list string :=
   if never_passed k || is_forwarding_name k || hop_by_hop hin k then [] else h_values k hin.
 
-(** the values of field [k] heimdall must hand to its HTTP client ([k]
-    canonical, not Host).  In this order: forwarding information extended by the
-    peer; the pipeline's value; otherwise the client's own field unless it is
-    one that is never passed.  Cookies of the pipeline are appended to the Cookie
-    field.  [pipeline_first] says who wins when the pipeline itself produced a
-    forwarding header: the property text says the pipeline (true). *)
-Definition handed_over (all pipeline_first : bool) (q : request) (pl : pipeline) (k : string) : list string :=
+(** the values of field [k] this implementation hands to its HTTP client ([k]
+    canonical, not Host): forwarding information extended by the peer; the
+    pipeline's values; otherwise the client's own field unless it is one that is
+    never passed.  Cookies of the pipeline are appended to the Cookie field.
+    Parameters: [all] every pipeline value (C13-F3 repaired), [pipeline_first]
+    the pipeline wins on a forwarding header (C15-F4 repaired), [al] all field
+    lines of a forwarding header count (C15-F7 repaired). *)
+Definition handed_over (all pipeline_first al : bool) (q : request) (pl : pipeline) (k : string) : list string :=
   let hin := in_headers q in
   let pvs := pipeline_values all (p_headers pl) k in
   let base := if is_nil pvs then passed_on hin k else pvs in
   let base :=
-    match forwarding_value q k with
+    match forwarding_value al q k with
     | Some v => if pipeline_first && negb (is_nil pvs) then pvs else [v]
     | None => base
     end in
@@ -161,30 +184,90 @@ Definition handed_over (all pipeline_first : bool) (q : request) (pl : pipeline)
   then [join_cookies (first_or_empty base) (sort_cookies (p_cookies pl))]
   else base.
 
-(** ... and what the upstream then sees.  Two documented habits of Go's
-    http.Transport are part of the expectation: only the first User-Agent value is
-    written (none if it is empty), and `Accept-Encoding: gzip` is added to a non-HEAD
-    request that has neither Accept-Encoding nor Range. *)
-Definition expected_values (all pipeline_first : bool) (q : request) (pl : pipeline) (method : string) (k : string) : list string :=
-  let ho := handed_over all pipeline_first q pl in
+(** ... and what the upstream then sees, given two habits of Go's http.Transport
+    (observed, not part of the property): only the first User-Agent value is
+    written (none if it is empty), and a line `Accept-Encoding: gzip` is added to a
+    non-HEAD request that has neither a non-empty Accept-Encoding nor Range. *)
+Definition expected_values (all pipeline_first al : bool) (q : request) (pl : pipeline) (method : string) (k : string) : list string :=
+  let ho := handed_over all pipeline_first al q pl in
   if String.eqb k "User-Agent" then
     (if is_empty (first_or_empty (ho k)) then [] else [first_or_empty (ho k)])
   else if String.eqb k "Accept-Encoding" then
     (if is_empty (first_or_empty (ho "Accept-Encoding")) && is_empty (first_or_empty (ho "Range")) &&
         negb (String.eqb method "HEAD")
-     then ["gzip"] else ho k)
+     then (ho k ++ ["gzip"])%list else ho k)
   else ho k.
 
-(** every name that could show up *)
-Definition relevant_names (q : request) (pl : pipeline) (obs : header) : list string :=
-  (map fst obs ++ map fst (in_headers q) ++ map (fun l => canon_key (fst l)) (p_headers pl) ++
-   ["Forwarded"; "X-Forwarded-For"; "X-Forwarded-Host"; "X-Forwarded-Proto";
-    "X-Forwarded-Method"; "X-Forwarded-Uri"; "X-Forwarded-Path"; "Cookie"; "User-Agent"; "Accept-Encoding"])%list.
+(** * the header sentences of the statement, as a predicate on what was observed *)
 
-Definition headers_ok (all pipeline_first : bool) (q : request) (pl : pipeline) (method : string) (obs : header) : bool :=
-  forallb (fun k => String.eqb k "Host" ||
-                    list_eqb String.eqb (h_values k obs) (expected_values all pipeline_first q pl method k))
-          (relevant_names q pl obs).
+(** names of the W3C trace context / baggage propagation: with tracing enabled
+    heimdall's HTTP client rewrites them on every request *)
+Definition propagation_names : list string := ["Traceparent"; "Tracestate"; "Baggage"].
+
+Definition leq (a b : list string) : bool := list_eqb String.eqb a b.
+
+(** Accept-Encoding / User-Agent: the statement fixes the values that were sent;
+    the HTTP client may append `gzip`, writes one User-Agent line at most and none for an empty value *)
+Definition ae_ok (expected obs : list string) : bool := leq obs expected || leq obs (expected ++ ["gzip"])%list.
+Definition ua_ok (expected obs : list string) : bool :=
+  leq obs expected || leq obs (firstn 1 expected) || (is_empty (first_or_empty expected) && is_nil obs).
+
+(** the pipeline's cookies are elements of the one Cookie field *)
+Definition cookie_elements (v : string) : list string := map trim_left (split_on ";" v).
+Definition cookies_ok (pl : pipeline) (obs : list string) : bool :=
+  match obs with
+  | [v] => forallb (fun c => mem_str (cookie_text c) (cookie_elements v)) (p_cookies pl)
+  | _ => false
+  end.
+
+(** an element of a Forwarded field that names the peer (RFC 7239: for=addr, for="addr", for="[v6]") *)
+Definition for_param (peer p : string) : bool :=
+  String.eqb p ("for=" ++ peer) || String.eqb p ("for=""" ++ peer ++ """") || String.eqb p ("for=""[" ++ peer ++ "]""").
+Definition names_peer (peer e : string) : bool := existsb (fun p => for_param peer (trim p)) (split_on ";" e).
+
+(** [v] is [old] extended by one more element (old may be empty) which satisfies [ok] *)
+Definition extended_by (ok : string -> bool) (old v : string) : bool :=
+  if is_empty old then ok v
+  else match cut_prefix (old ++ ", ") v with Some e => ok e | None => false end.
+
+(** the sentence about one field name [k] (canonical, not Host), given the values [vs] the upstream saw for it *)
+Definition hdr_clause (q : request) (pl : pipeline) (tracing : bool) (k : string) (vs : list string) : bool :=
+  let hin := in_headers q in
+  let pvs := line_values k (p_headers pl) in
+  let with_cookies := String.eqb k "Cookie" && negb (is_nil (p_cookies pl)) in
+  if negb (is_nil pvs) then
+    (* "every header produced by the pipeline replaces any same-named header sent by the client" *)
+    if with_cookies then cookies_ok pl vs && mem_str (first_or_empty pvs) (match vs with [v] => cookie_elements v | _ => [] end)
+    else if String.eqb k "Accept-Encoding" then ae_ok pvs vs
+    else if String.eqb k "User-Agent" then ua_ok pvs vs
+    else leq vs pvs
+  else if never_passed k then
+    (* "a client cannot pass X-Forwarded-Method/-Uri/-Path through" *)
+    is_nil vs
+  else if String.eqb k "X-Forwarded-For" then
+    (* "X-Forwarded-For or Forwarded is extended by the peer address" *)
+    if forwarding_active true hin
+    then match vs with [v] => extended_by (String.eqb (q_peer q)) (h_joined k hin) v | _ => false end
+    else true
+  else if String.eqb k "Forwarded" then
+    if forwarding_active true hin then true
+    else match vs with [v] => extended_by (names_peer (q_peer q)) (h_joined k hin) v | _ => false end
+  else if is_forwarding_name k || hop_by_hop hin k then true
+  else if tracing && mem_str k propagation_names then true
+  else if with_cookies then cookies_ok pl vs
+  else if negb (h_has k hin) then true
+    (* a field of the client that nothing above touches arrives as it was sent *)
+  else if String.eqb k "Accept-Encoding" then ae_ok (h_values k hin) vs
+  else if String.eqb k "User-Agent" then ua_ok (h_values k hin) vs
+  else leq vs (h_values k hin).
+
+(** the names the statement talks about for this request *)
+Definition statement_names (q : request) (pl : pipeline) : list string :=
+  (map fst (in_headers q) ++ map (fun l => canon_key (fst l)) (p_headers pl) ++
+   ["Forwarded"; "X-Forwarded-For"; "X-Forwarded-Method"; "X-Forwarded-Uri"; "X-Forwarded-Path"; "Cookie"])%list.
+
+Definition headers_ok (q : request) (pl : pipeline) (tracing : bool) (obs : header) : bool :=
+  forallb (fun k => String.eqb k "Host" || hdr_clause q pl tracing k (h_values k obs)) (statement_names q pl).
 
 Definition expected_host (pl : pipeline) (r : rule) : string :=
   match pipeline_value (p_headers pl) "Host" with
@@ -216,11 +299,11 @@ Definition spec_ok (q : request) (pl : pipeline) (r : rule) (o : outcome) : bool
       negb (must_be_refused r u) && scheme_usable r u &&
       Bool.eqb tls (String.eqb (expected_scheme r u) "https") &&
       String.eqb opath (let p := expected_path r u in if is_empty p then "/" else p) &&
-      query_removed (cfg_strip_query r) (u_query u) oquery &&
+      query_clause (cfg_strip_query r) (u_query u) oquery &&
       String.eqb method (q_method q) &&
       String.eqb body (q_body q) &&
       String.eqb host (expected_host pl r) &&
-      headers_ok true true q pl method hs
+      headers_ok q pl (r_tracing r) hs
     end
   end.
 
